@@ -1410,3 +1410,142 @@ pub fn gen_c02(rng: &mut Rng, d: &mut Dist, _idx: u64) -> Vec<String> {
     }
     out
 }
+
+/// flip `nbits` consecutive-window bits: a burst of length `len` starting at bit `start` (first and last bit of the
+/// burst always flipped, the ones in between at random)
+pub fn burst(rng: &mut Rng, data: &mut [u8], start: usize, len: usize) {
+    for i in 0..len {
+        let pos = start + i;
+        if pos / 8 >= data.len() {
+            break;
+        }
+        if i == 0 || i == len - 1 || rng.chance(1, 2) {
+            data[pos / 8] ^= 1 << (pos % 8);
+        }
+    }
+}
+
+/// C04: corpus of message sets (plain, gzip, snappy, inner with the wrapper checksum intact) with one message corrupted
+/// in its checksum field or its covered bytes by a single-bit flip, a double-bit flip or a burst of up to 32 bits;
+/// validation on and off.
+pub fn gen_c04(rng: &mut Rng, d: &mut Dist, idx: u64) -> Vec<String> {
+    // exhaustive part (first indices): every single-bit flip of the checksum field and covered bytes of every message
+    // of a fixed two-message set, in the three layouts, validation on
+    {
+        let m0 = raw_msg(0, 0, None, Some(b"a"), 0);
+        let m1 = raw_msg(1, 0, Some(b"key"), Some(b"value-1"), 0);
+        let bits0 = (m0.len() - 12) * 8;
+        let bits1 = (m1.len() - 12) * 8;
+        let per_layout = (bits0 + bits1) as u64;
+        if idx < 3 * per_layout {
+            let layout = idx / per_layout;
+            let b = (idx % per_layout) as usize;
+            let (mut a0, mut a1) = (m0.clone(), m1.clone());
+            if b < bits0 {
+                let p = 12 * 8 + b;
+                a0[p / 8] ^= 1 << (p % 8);
+            } else {
+                let p = 12 * 8 + (b - bits0);
+                a1[p / 8] ^= 1 << (p % 8);
+            }
+            bump(d, "exhaustive-single-bit");
+            let all = [a0, a1].concat();
+            let mut out = vec![
+                format!("BROKER 1 {} 9092", h("b1")),
+                format!("TOPIC {} 1", h("t")),
+                format!("LEADER {} 0 1", h("t")),
+            ];
+            let bytes = match layout {
+                0 => all,
+                1 => real_wrapper(rng, 1, 1, &all),
+                _ => real_wrapper(rng, 2, 1, &all),
+            };
+            out.push(format!("APPENDRAW {} 0 0 1 {}", h("t"), hex(&bytes)));
+            out.push(format!("OP client_new {}", h("b1:9092")));
+            out.push("OP c load_metadata_all".into());
+            out.push(format!("OP c fetch_messages {} 0 0 -1", h("t")));
+            return out;
+        }
+    }
+    let cl = Cluster::random(rng, 1, false);
+    let mut out = cl.setup_lines();
+    let t = &cl.topics[0];
+    // 1-4 messages; one of them is the victim
+    let n = 1 + rng.below(4) as usize;
+    let victim = rng.below(n as u64) as usize;
+    let mut msgs: Vec<Vec<u8>> = Vec::new();
+    for i in 0..n {
+        let k = if rng.chance(1, 2) { None } else { Some(rng.rbytes(1, 5)) };
+        let v = Some(rng.rbytes(1, 40));
+        msgs.push(raw_msg(i as i64, 0, k.as_deref(), v.as_deref(), 0));
+    }
+    // corrupt the victim: region = checksum field (bytes 12..16) or covered bytes (16..)
+    let region_field = rng.chance(1, 2);
+    bump(d, if region_field { "corrupt-crc-field" } else { "corrupt-covered-bytes" });
+    let (lo, hi) = if region_field { (12 * 8, 16 * 8) } else { (16 * 8, msgs[victim].len() * 8) };
+    let kind = rng.below(4);
+    {
+        let m = &mut msgs[victim];
+        match kind {
+            0 => {
+                bump(d, "single-bit");
+                let p = lo + rng.below((hi - lo) as u64) as usize;
+                m[p / 8] ^= 1 << (p % 8);
+            }
+            1 => {
+                bump(d, "double-bit");
+                let p = lo + rng.below((hi - lo) as u64) as usize;
+                let mut q = lo + rng.below((hi - lo) as u64) as usize;
+                if q == p {
+                    q = if p + 1 < hi { p + 1 } else { p - 1 };
+                }
+                m[p / 8] ^= 1 << (p % 8);
+                m[q / 8] ^= 1 << (q % 8);
+            }
+            2 => {
+                bump(d, "burst<=32");
+                let len = 2 + rng.below(31) as usize;
+                let maxstart = if hi - lo > len { hi - lo - len } else { 0 };
+                let start = lo + rng.below(maxstart as u64 + 1) as usize;
+                let len = len.min(hi - start);
+                burst(rng, m, start, len);
+            }
+            _ => {
+                bump(d, "intact");
+            }
+        }
+    }
+    let layout = rng.below(4);
+    let all: Vec<u8> = msgs.concat();
+    match layout {
+        0 | 1 => {
+            bump(d, "layout-plain");
+            out.push(format!("APPENDRAW {} 0 0 {} {}", h(&t.name), n - 1, hex(&all)));
+        }
+        2 => {
+            bump(d, "layout-inner-of-gzip");
+            out.push(format!("APPENDRAW {} 0 0 {} {}", h(&t.name), n - 1, hex(&real_wrapper(rng, 1, n as i64 - 1, &all))));
+        }
+        _ => {
+            bump(d, "layout-inner-of-snappy");
+            out.push(format!("APPENDRAW {} 0 0 {} {}", h(&t.name), n - 1, hex(&real_wrapper(rng, 2, n as i64 - 1, &all))));
+        }
+    }
+    // sometimes corrupt a wrapper itself instead (second log entry)
+    if rng.chance(1, 4) {
+        bump(d, "corrupt-wrapper");
+        let inner = raw_msg(n as i64, 0, None, Some(b"inner"), 0);
+        let wc = 1 + rng.below(2) as u8;
+        let mut w = real_wrapper(rng, wc, n as i64, &inner);
+        let p = 12 * 8 + rng.below(((w.len() - 12) * 8) as u64) as usize;
+        w[p / 8] ^= 1 << (p % 8);
+        out.push(format!("APPENDRAW {} 0 {} {} {}", h(&t.name), n, n, hex(&w)));
+    }
+    out.push(format!("OP client_new {}", cl.bootstrap()));
+    let on = rng.chance(2, 3);
+    bump(d, if on { "validation-on" } else { "validation-off" });
+    out.push(format!("OP c set crc {}", if on { 1 } else { 0 }));
+    out.push("OP c load_metadata_all".into());
+    out.push(format!("OP c fetch_messages {} 0 0 -1", h(&t.name)));
+    out
+}
